@@ -461,6 +461,10 @@ def reusable(check, prog):
     # ... and what a result stores can be read back: dimension names stay str
     from . import c16
     c16.dimension_names(check, prog)
+    # lens theories incl. a fitted lens angle: the wrapper accepts a prior and
+    # computes with the angle it has now
+    from . import c08
+    c08.lens_quadrature_current(check, prog)
 
 
 # ----------------------------------------------------------------------
